@@ -244,9 +244,6 @@ func (e *badRootExec) ModelLine(line string) string {
 		i := strings.IndexByte(kv, '=')
 		p[kv[:i]] = kv[i+1:]
 	}
-	if e.lastKnown {
-		return "echo " + e.last
-	}
 	fm := e.root.NodeFormat
 	if p["fmt"] != "same" {
 		fm = p["fmt"]
@@ -280,6 +277,10 @@ func (e *badRootExec) ModelLine(line string) string {
 	}
 	if top == "" {
 		top = "-"
+	}
+	if p["cache"] == "warm" && p["top"] == "same" {
+		// the cached-loader model: the cache holds what a reader of the writer's configuration left
+		return fmt.Sprintf("loadrootc %s %s %s %s %s %s %s %s %s", fm, kk, bf, h, p["order"], link, top, e.cfg.Fmt, e.cfg.KK)
 	}
 	return fmt.Sprintf("loadroot %s %s %s %s %s %s %s", fm, kk, bf, h, p["order"], link, top)
 }
@@ -459,7 +460,7 @@ var badRootRunner = Runner{Mk: func(c Cfg) Executor { return &badRootExec{cfg: c
 }}
 
 func famBadRoots(f *FamCtx) {
-	f.Report.Rule = "a good persisted version, then LoadMast of perturbed roots (half of those that keep the stored top node also with a node cache warmed by a correctly configured reader): unknown/alternative format strings, missing top node, recorded height and branch factor changed, reversed KeyCompare, another key kind in the loader, hand-encoded top nodes of both formats (unsorted, duplicate key, more keys than values, too many / too few links, truncated; binary also bit-flipped and huge count); outcome enum ok|err|panic|hang compared with the Lean loader model (both formats) and with the harness's own restatement of C19's rejecting conditions; non-trivial = every case (each holds >= 12 perturbed loads)"
+	f.Report.Rule = "a good persisted version, then LoadMast of perturbed roots (half of those that keep the stored top node also with a node cache warmed by a correctly configured reader): unknown/alternative format strings, missing top node, recorded height and branch factor changed, reversed KeyCompare, another key kind in the loader, hand-encoded top nodes of both formats (unsorted, duplicate key, more keys than values, too many / too few links, truncated; binary also bit-flipped and huge count); outcome enum ok|err|panic|hang compared with the Lean loader model (both formats; warm-cache loads with the cached-loader model `loadMastC`, whose cache entry is what a reader of the writer's configuration leaves) and with the harness's own restatement of C19's rejecting conditions; non-trivial = every case (each holds >= 12 perturbed loads)"
 	rn := badRootRunner
 	f.Sig = func(o Outcome) string {
 		if strings.HasPrefix(o.Viol, "KF-cache-other-config: ") {
